@@ -163,4 +163,18 @@ CHECKS = {
         assumptions=["what a continuously connected real daemon does with a second entry group for the same service name cannot be established offline: "
                      "for a re-announce without an intervening disconnect only the presence of the desired announcement is required"],
     ),
+    "C15": dict(
+        level="exploration",
+        rule=("rapid-generated (hub state: none / pending inbound request / completed) x 1-3 operations (register, unregister, disconnect, "
+              "cancel, pairing detail, service lookup) x SKI spelling (case per hex digit, dashes and blanks at drawn positions); "
+              "differential: the same scenario runs on two fresh pairs of real hubs (TLS+websocket over loopback, harness mDNS fabric), "
+              "once with canonical and once with the re-formatted SKI, and the settled observable state (registry of both hubs, handshake "
+              "states, pairing detail via both spellings, trust flag, service identity, last setup/disconnect notification on both "
+              "applications) must agree after every operation. non-trivial = a connection exists when an operation runs; distinct = hash "
+              "of the scenario"),
+        runs=[dict(engine="hubnet", test="TestC15", shrinktime="1s", quick=dict(checks=8, shards=4, timeout=900),
+                   thorough=dict(checks=40, shards=8, timeout=3000), env=dict(VERIF_BATCH="8"))],
+        assumptions=["real time: states are compared only after 1.7 s without any callback or TCP accept (longer than the scaled dial back-off plus the "
+                     "delayed notifications); scenarios that do not settle are counted as inconclusive, never as violations"],
+    ),
 }
